@@ -13,6 +13,7 @@
 import GilVerif.Model.C14
 import Mathlib.Tactic.Ring
 import Mathlib.Tactic.Linarith
+import Mathlib.Data.List.Induction
 
 namespace GilVerif.Props.C14
 open GilVerif.Model.C14
@@ -127,6 +128,12 @@ theorem C14_index_preserved_L7 :
     ∀ fmt ∈ L7, indexOf (f.tag (Tag.ofFmt fmt)) (L7.map (fun g => f.tag (Tag.ofFmt g))) = indexOf fmt L7 := by
   decide
 
+/-- the same on the second representative list (16-bit gray, argb, rgba, cmyk, rgb16 interleaved and planar) -/
+theorem C14_index_preserved_LB :
+    ∀ f ∈ [Xf.id, .flipUD, .flipLR, .transpose, .rot90cw, .rot90ccw, .rot180, .sub 0 0 1 1, .subs 1 1, .cc rgb8 .sum],
+    ∀ fmt ∈ LB, indexOf (f.tag (Tag.ofFmt fmt)) (LB.map (fun g => f.tag (Tag.ofFmt g))) = indexOf fmt LB := by
+  decide
+
 /-! ### compatibility -/
 
 theorem C14_compatible_iff (a b : Fmt) : compatible a b = true ↔ a.cs = b.cs ∧ a.depth = b.depth := by
@@ -140,8 +147,29 @@ theorem C14_compatible_equiv :
   · rw [C14_compatible_iff] at *; exact ⟨h1.1.trans h2.1, h1.2.trans h2.2⟩
 
 /-- layout order and planar / interleaved organisation do not affect compatibility -/
-theorem C14_compatible_ignores_layout (a b : Fmt) (r : Bool) (o : Org) :
-    compatible { a with rev := r, org := o } b = compatible a b := rfl
+theorem C14_compatible_ignores_layout (a b : Fmt) (r : Order) (o : Org) :
+    compatible { a with order := r, org := o } b = compatible a b := rfl
+
+/-- every layout order is a permutation of the colour-space order: `sem` inverts `phys` -/
+theorem C14_layout_inverse (f : Fmt) (c : Nat) (h : c < f.nc) :
+    f.sem (f.phys c) = c ∧ f.phys (f.sem c) = c ∧ f.phys c < f.nc ∧ f.sem c < f.nc := by
+  obtain ⟨cs, o, d, g⟩ := f
+  cases cs <;> cases o <;> cases d <;> cases g <;> (revert c; simp only [Fmt.nc, CS.n]; decide)
+
+/-- assignment between two pixels of the SAME format is the identity (channels are paired by colour) -/
+theorem C14_pair_same_format (f : Fmt) (p : List Nat) (hp : p.length = f.nc) : pairPx f f p = p := by
+  unfold pairPx fromSem toSem
+  apply List.ext_getElem
+  · simp [hp]
+  · intro k h1 h2
+    have hk : k < f.nc := by simpa using h1
+    obtain ⟨-, e2, -, h4⟩ := C14_layout_inverse f k hk
+    have h5 : f.phys (f.sem k) < p.length := by rw [e2, hp]; exact hk
+    simp only [List.getElem_map, List.getElem_range]
+    rw [List.getD_eq_getElem?_getD, List.getElem?_map, List.getElem?_range h4]
+    simp only [Option.map_some, Option.getD_some]
+    rw [List.getD_eq_getElem?_getD, List.getElem?_eq_getElem h5]
+    simp [e2]
 
 /-! ### binary dispatch -/
 
@@ -266,6 +294,113 @@ theorem C14_any_frame (a b : AnyView) (m : Mem) (c : Int) (h : ¬ owns b.2 c) (c
     · exact C14_resample_frame _ _ _ _ _ h
     · rfl
   · simp only [anyEqualPixels, binaryOp]; split <;> rfl
+
+
+/-! ### what a compatible copy stores (the "concrete result" that the dispatch theorems refer to) -/
+
+/-- distinct (pixel, channel) slots of the view occupy distinct cells -/
+def cellsInjective {t : Tag} (v : View t) : Prop :=
+  ∀ x y k x' y' k', x < v.w → y < v.h → k < v.ns → x' < v.w → y' < v.h → k' < v.ns →
+    v.cell x y k = v.cell x' y' k' → x = x' ∧ y = y' ∧ k = k'
+
+private theorem write_get' {t : Tag} (v : View t) (x y : Nat) (p : List Nat)
+    (hinj : ∀ j n, j < v.ns → n < v.ns → v.cell x y j = v.cell x y n → j = n) :
+    ∀ n (m : Mem) (j : Nat), n ≤ v.ns → j < n →
+      ((List.range n).foldl (fun m k => upd m (v.cell x y k) (p.getD k 0)) m).get (v.cell x y j) = p.getD j 0 := by
+  intro n
+  induction n with
+  | zero => intro m j _ hj; omega
+  | succ n ih =>
+    intro m j hn hj
+    rw [List.range_succ, List.foldl_append]
+    simp only [List.foldl, upd]
+    by_cases hjn : j = n
+    · subst hjn; simp
+    · have hne : v.cell x y j ≠ v.cell x y n := fun e => hjn (hinj j n (by omega) (by omega) e)
+      simp only [hne, if_false]
+      exact ih m j (by omega) (by omega)
+
+private theorem raw_write_same {t : Tag} (v : View t) (m : Mem) (x y : Nat) (p : List Nat) (hx : x < v.w) (hy : y < v.h)
+    (hinj : cellsInjective v) (hp : p.length = v.ns) : v.raw (v.write m x y p) x y = p := by
+  unfold View.raw View.write
+  apply List.ext_getElem
+  · simp [hp]
+  · intro j h1 h2
+    simp only [List.getElem_map, List.getElem_range]
+    have hj : j < v.ns := by simpa using h1
+    rw [write_get' v x y p (fun a b ha hb e => (hinj x y a x y b hx hy ha hx hy hb e).2.2) v.ns m j (Nat.le_refl _) hj]
+    simp [List.getD, List.getElem?_eq_getElem h2]
+
+private theorem raw_write_other {t : Tag} (v : View t) (m : Mem) (x y x' y' : Nat) (p : List Nat)
+    (hx : x < v.w) (hy : y < v.h) (hx' : x' < v.w) (hy' : y' < v.h) (hne : (x', y') ≠ (x, y))
+    (hinj : cellsInjective v) : v.raw (v.write m x y p) x' y' = v.raw m x' y' := by
+  unfold View.raw
+  apply List.map_congr_left
+  intro k hk
+  have hk' : k < v.ns := List.mem_range.mp hk
+  unfold View.write
+  apply foldl_keeps
+  intro m' j hj
+  have hj' : j < v.ns := List.mem_range.mp hj
+  have : v.cell x' y' k ≠ v.cell x y j := by
+    intro e
+    obtain ⟨e1, e2, -⟩ := hinj x' y' k x y j hx' hy' hk' hx hy hj' e
+    exact hne (by rw [e1, e2])
+  simp [upd, this]
+
+private theorem px_congr {t : Tag} (v : View t) (m m' : Mem) (x y : Nat) (hx : x < v.w) (hy : y < v.h)
+    (h : ∀ c, owns v c → m'.get c = m.get c) : v.px m' x y = v.px m x y := by
+  unfold View.px View.raw
+  congr 1
+  apply List.map_congr_left
+  intro k hk
+  exact h _ ⟨x, y, k, hx, hy, List.mem_range.mp hk, rfl⟩
+
+private theorem pairPx_length (a b : Fmt) (p : List Nat) : (pairPx a b p).length = b.nc := by
+  simp [pairPx, fromSem]
+
+private theorem copy_fold {t1 t2 : Tag} (s : View t1) (d : View t2) (m : Mem)
+    (hw : s.w = d.w) (hh : s.h = d.h) (hinj : cellsInjective d) (hdis : ∀ c, owns d c → ¬ owns s c)
+    (hns : d.ns = t2.fmt.nc) (l : List (Nat × Nat)) (hl : ∀ a ∈ l, a.1 < d.w ∧ a.2 < d.h) :
+    (∀ c, owns s c → (l.foldl (fun m xy => d.write m xy.1 xy.2 (pairPx t1.fmt t2.fmt (s.px m xy.1 xy.2))) m).get c = m.get c) ∧
+    (∀ b ∈ l, d.raw (l.foldl (fun m xy => d.write m xy.1 xy.2 (pairPx t1.fmt t2.fmt (s.px m xy.1 xy.2))) m) b.1 b.2 =
+        pairPx t1.fmt t2.fmt (s.px m b.1 b.2)) := by
+  induction l using List.reverseRecOn with
+  | nil => exact ⟨fun _ _ => rfl, fun b hb => absurd hb List.not_mem_nil⟩
+  | append_singleton l a ih =>
+    have hl' : ∀ b ∈ l, b.1 < d.w ∧ b.2 < d.h := fun b hb => hl b (List.mem_append_left _ hb)
+    obtain ⟨ihA, ihB⟩ := ih hl'
+    obtain ⟨hax, hay⟩ := hl a (List.mem_append_right _ (List.mem_singleton_self a))
+    rw [List.foldl_append]
+    simp only [List.foldl]
+    constructor
+    · intro c hc
+      rw [write_keeps d _ a.1 a.2 _ c hax hay (fun ho => hdis c ho hc)]
+      exact ihA c hc
+    · intro b hb
+      by_cases hba : b = a
+      · subst hba
+        rw [raw_write_same d _ b.1 b.2 _ hax hay hinj (by rw [pairPx_length, hns])]
+        rw [px_congr s m _ b.1 b.2 (by omega) (by omega) ihA]
+      · have hbl : b ∈ l := by
+          rcases List.mem_append.mp hb with h | h
+          · exact h
+          · exact absurd (List.mem_singleton.mp h) hba
+        obtain ⟨hbx, hby⟩ := hl' b hbl
+        rw [raw_write_other d _ a.1 a.2 b.1 b.2 _ hax hay hbx hby (fun e => hba (Prod.ext (by simpa using congrArg Prod.fst e) (by simpa using congrArg Prod.snd e))) hinj]
+        exact ihB b hbl
+
+/-- `copy_pixels` on views of equal dimensions, the destination's slots being distinct cells none of which the
+    source reads: afterwards every destination pixel holds the source pixel, channels paired by colour, and the
+    source is unchanged. With `C14_binary_dispatch` this is what the run-time typed `copy_pixels` (and the
+    compatible branch of `copy_and_convert_pixels`) stores for every pair of compatible alternatives. -/
+theorem C14_copy_pixels_correct {t1 t2 : Tag} (s : View t1) (d : View t2) (m : Mem)
+    (hw : s.w = d.w) (hh : s.h = d.h) (hinj : cellsInjective d) (hdis : ∀ c, owns d c → ¬ owns s c)
+    (hns : d.ns = t2.fmt.nc) (x y : Nat) (hx : x < d.w) (hy : y < d.h) :
+    d.raw (copyPixels s d m) x y = pairPx t1.fmt t2.fmt (s.px m x y) ∧
+    s.px (copyPixels s d m) x y = s.px m x y := by
+  have h := copy_fold s d m hw hh hinj hdis hns (coords d.w d.h) (fun a ha => mem_coords.mp ha)
+  exact ⟨h.2 (x, y) (mem_coords.mpr ⟨hx, hy⟩), px_congr s m _ x y (by omega) (by omega) h.1⟩
 
 /-! ### any_image_view is a shallow value, any_image a deep one -/
 
@@ -431,7 +566,7 @@ theorem C14_new_image_content (hp : Heap) (f : Fmt) (w h : Nat) (init : Nat → 
     rw [hoff, Int.toNat_natCast, decode_planar ho w h x y k hx hy]
   · have hoff : (hp.newImage f w h init).1.view.cell x y k - (hp.next : Int) = (((y * w + x) * f.nc + k : Nat) : Int) := by
       simp only [Image.view, Heap.newImage, View.cell]
-      cases ho' : f.org <;> simp_all <;> (push_cast; ring)
+      cases ho' : f.org <;> simp_all <;> ring
     rw [hoff, Int.toNat_natCast, decode_interleaved ho w h x y k hx hk]
 
 /-- the copy of an any_image holds, pixel for pixel and channel for channel, the values of the original -/
@@ -444,6 +579,66 @@ theorem C14_copy_keeps_old_cells (a : AnyImage) (hp : Heap) (c : Int) (hc : c < 
     (a.copy hp).2.mem.get c = hp.mem.get c := by
   simp only [AnyImage.copy]
   rw [newImage_get, if_neg (by omega)]
+
+
+private theorem view_ns {f : Fmt} (i : Image f) : i.view.ns = f.nc ∧ i.view.w = i.w ∧ i.view.h = i.h := by
+  unfold Image.view; cases f.org <;> exact ⟨rfl, rfl, rfl⟩
+
+/-- offset of slot (x,y,k) inside the image's block -/
+private def slotOff (f : Fmt) (w h x y k : Nat) : Nat :=
+  if f.org = .planar then k * (w * h) + (y * w + x) else (y * w + x) * f.nc + k
+
+private theorem cell_eq_off {f : Fmt} (i : Image f) (x y k : Nat) :
+    i.view.cell x y k = (i.base : Int) + (slotOff f i.w i.h x y k : Nat) := by
+  unfold slotOff Image.view View.cell
+  cases ho : f.org <;> simp <;> ring
+
+private theorem decode_off {f : Fmt} (w h x y k : Nat) (hx : x < w) (hy : y < h) (hk : k < f.nc) :
+    decodeCell f w h (slotOff f w h x y k) = (x, y, k) := by
+  unfold slotOff
+  by_cases ho : f.org = .planar
+  · rw [if_pos ho]; exact decode_planar ho w h x y k hx hy
+  · rw [if_neg ho]; exact decode_interleaved ho w h x y k hx hk
+
+/-- the slots of an image are distinct cells -/
+theorem C14_image_view_injective {f : Fmt} (i : Image f) : cellsInjective i.view := by
+  intro x y k x' y' k' hx hy hk hx' hy' hk' e
+  obtain ⟨hn, hw, hh⟩ := view_ns i
+  rw [hw] at hx hx'; rw [hh] at hy hy'; rw [hn] at hk hk'
+  rw [cell_eq_off, cell_eq_off] at e
+  have e' : slotOff f i.w i.h x y k = slotOff f i.w i.h x' y' k' := by omega
+  have d1 := decode_off (f := f) i.w i.h x y k hx hy hk
+  have d2 := decode_off (f := f) i.w i.h x' y' k' hx' hy' hk'
+  rw [e'] at d1
+  have := d1.symm.trans d2
+  simp only [Prod.mk.injEq] at this
+  exact this
+
+/-- `copy_pixels(view(a), view(b))` through the run-time typed interface, for two any_images of compatible
+    alternatives and equal dimensions living in disjoint blocks: succeeds, every pixel of `b` then holds the pixel
+    of `a` (channels paired by colour), `a` is unchanged -/
+theorem C14_any_copy_between_images (a b : AnyImage) (m : Mem) (hc : compatible a.1 b.1 = true)
+    (hw : a.2.w = b.2.w) (hh : a.2.h = b.2.h) (hdis : a.2.base + a.2.size ≤ b.2.base)
+    (x y : Nat) (hx : x < b.2.w) (hy : y < b.2.h) :
+    (anyCopyPixels a.view b.view m).1 = .ok () ∧
+    b.2.view.raw (anyCopyPixels a.view b.view m).2 x y = pairPx a.1 b.1 (a.2.view.px m x y) ∧
+    a.2.view.px (anyCopyPixels a.view b.view m).2 x y = a.2.view.px m x y := by
+  obtain ⟨hna, hwa, hha⟩ := view_ns a.2
+  obtain ⟨hnb, hwb, hhb⟩ := view_ns b.2
+  have hdisj : ∀ c, owns b.2.view c → ¬ owns a.2.view c := by
+    rintro c ⟨x1, y1, k1, h1, h2, h3, rfl⟩ ⟨x2, y2, k2, g1, g2, g3, e⟩
+    rw [hwb] at h1; rw [hhb] at h2; rw [hnb] at h3; rw [hwa] at g1; rw [hha] at g2; rw [hna] at g3
+    have b1 := C14_image_cells_in_block b.2 x1 y1 k1 h1 h2 h3
+    have b2 := C14_image_cells_in_block a.2 x2 y2 k2 g1 g2 g3
+    have : ((a.2.base + a.2.size : Nat) : Int) ≤ b.2.base := by exact_mod_cast hdis
+    push_cast at this
+    omega
+  have key := C14_copy_pixels_correct a.2.view b.2.view m (by rw [hwa, hwb, hw]) (by rw [hha, hhb, hh])
+    (C14_image_view_injective b.2) hdisj hnb x y (by rw [hwb]; exact hx) (by rw [hhb]; exact hy)
+  have hd : anyCopyPixels a.view b.view m = (.ok (), copyPixels a.2.view b.2.view m) := by
+    simp [anyCopyPixels, binaryOp, AnyImage.view, Tag.ofFmt, hc]
+  rw [hd]
+  exact ⟨rfl, key.1, key.2⟩
 
 /-- recreate keeps the held type (and therefore the index in any type list) and sets the new dimensions -/
 theorem C14_recreate_keeps_type (a : AnyImage) (w h : Nat) (hp : Heap) (L : List Fmt) :
@@ -507,7 +702,10 @@ example : (Xf.rot90cw.apply exImg.view).w = 2 ∧ (Xf.rot90cw.apply exImg.view).
     (Xf.rot90cw.apply exImg.view).cell 1 2 0 = exImg.view.cell 2 0 0 := by decide
 -- compatible / incompatible pairs of the representative list
 example : compatible rgb8 bgr8 = true ∧ compatible rgb8 rgb8p = true ∧ compatible rgb8 rgb16 = false ∧
-    compatible g8 g1 = false ∧ compatible rgb8 rgba8 = false := by decide
+    compatible g8 g1 = false ∧ compatible rgb8 rgba8 = false ∧ compatible argb8 rgba8 = true ∧
+    compatible cmyk8 rgba8 = false ∧ compatible rgb16 rgb16p = true := by decide
+-- argb pixel (a,r,g,b) = (9,1,2,3) assigned to an rgba pixel gives (1,2,3,9)
+example : pairPx argb8 rgba8 [9, 1, 2, 3] = [1, 2, 3, 9] := by decide
 -- hypotheses of C14_write_read / C14_view_shallow / C14_lift_write_through on an image view
 example : exImg.view.ks ≠ 0 ∧ [7, 8, 9].length = exImg.view.ns := by decide
 -- hypotheses of C14_copy_deep / C14_view_of_copy_differs
